@@ -50,6 +50,7 @@ class Manifest:
     """a YAML manifest built line by line; records where each value is"""
 
     def __init__(self):
+        self.indirect = False   # contents given through an anchor/alias: positions of the entries are not compared
         self.lines = []
         self.items = []     # (value bytes or None when not a string, line, col)
         self.schema = None
@@ -176,14 +177,14 @@ def evaluate(ctx, manifests, label):
                         why = "returned path %r is not safe (absolute, '..' segment, backslash or not .fga)" % p
                     elif v is not None and not (set(v) & set(b"%+\\")) and p != v:
                         why = "path %r written without %%, + or backslash is returned as %r" % (v, p)
-                    elif (l, c) != (el, ec):
+                    elif (l, c) != (el, ec) and not m.indirect:
                         why = "path %r reported at line %d column %d, it stands at line %d column %d" % (p, l, c, el, ec)
                     if why:
                         break
             if not why and m.schema and (y["schema"][1], y["schema"][2]) != m.schema:
                 why = "schema reported at %r, it stands at %r" % ((y["schema"][1], y["schema"][2]), m.schema)
             if not why and offending:
-                why = "manifest accepted although the entry on line %d violates a rule" % offending[0]
+                why = "manifest accepted although the entry on line %s violates a rule" % offending[0]
             if why:
                 ctx.violation("modfile-accepted", {"input": B(text), "text": text, "why": why})
             elif len(ctx.samples) < 4 and nontriv:
@@ -198,7 +199,7 @@ def evaluate(ctx, manifests, label):
             per_item = [l for l in elines if l in item_lines]
             if not why and len(set(per_item)) != len(per_item):
                 why = "two errors for one entry"
-            if not why:
+            if not why and not m.indirect:
                 missing = [l for l in offending if l not in elines]
                 if missing:
                     why = "the offending entry on line %d has no error of its own" % missing[0]
@@ -272,6 +273,21 @@ def randoms(ctx, n):
         if rng.random() < 0.05:
             m.lines = [l for l in m.lines if not l.startswith("contents")] if rng.random() < 0.5 else ["contents: 'x'"] + [l for l in m.lines if l.startswith("schema")]
             m.items = []
+        elif rng.random() < 0.06:
+            # the list of files given indirectly: an alias to a sequence anchored under another key, or an anchored
+            # sequence that another key aliases; whatever the verdict, no entry may be dropped silently
+            plain_entries = [e for e in entries if isinstance(e, str) and e and set(e) <= PLAIN_OK and e[0] not in "-+." and not e[0].isdigit()] or ["core.fga"]
+            if rng.random() < 0.5:
+                plain_entries.append("../../etc/evil.fga")
+            flow = "[" + ", ".join(plain_entries) + "]"
+            sch = [l for l in m.lines if l.startswith("schema")]
+            if rng.random() < 0.6:
+                m.lines = sch + ["shared: &files " + flow, "contents: *files"]
+            else:
+                m.lines = sch + ["contents: &files " + flow, "other: *files"]
+            m.items = [(e.encode(), None, None) for e in plain_entries]
+            m.indirect = True
+            m.schema = (0, len("schema: ")) if sch else None
         ms.append(m)
     return ms
 
